@@ -56,4 +56,12 @@ def findApiOp (args : List String) : String :=
     if m == obs then "ok " ++ kind else "diff " ++ kind ++ " model=" ++ " ".intercalate m ++ " impl=" ++ " ".intercalate obs
   | none => "bad-op findapi"
 
+/-- `law <kind> <name> ok|fail x<detail>`: a law of a property evaluated by the harness directly on the
+implementation (two API calls that must agree, …) -/
+def lawOp (args : List String) : String :=
+  match args with
+  | [kind, name, "ok", _] => "ok " ++ kind ++ " " ++ name
+  | [kind, name, "fail", detail] => "specfail " ++ kind ++ " law=" ++ name ++ " detail=" ++ detail
+  | _ => "bad-op law"
+
 end Liquid.Drv
